@@ -408,7 +408,7 @@ pub fn run(ctx: &Ctx, replay: Option<&J>) -> i32 {
         let with_slot: Vec<Slot> = ss.iter().filter(|s| s.kind.has_slot()).cloned().collect();
         jobs.push(Job { t: ti, chosen: with_slot, double: false });
     }
-    par_for(jobs.len(), |i| {
+    par_for_ctx(ctx, jobs.len(), |i| {
         let j = &jobs[i];
         check_case(ctx, &ts[j.t], &j.chosen, j.double, max_width);
     });
